@@ -18,6 +18,29 @@ for name in sorted(os.listdir(src)):
     if not os.path.exists(os.path.join(d, 'patch.diff')):
         continue
     r = res.get(name)
+    if r and r.get('kind') == 'neutral':
+        if not (r.get('applies') and 'passed' in r.get('tests', '') and not re.search(r'\b\d+ (failed|error)', r.get('tests', ''))):
+            print('skip (neutral, not confirmed):', name)
+            continue
+        o = os.path.join(V, 'seeded', name)
+        os.makedirs(o, exist_ok=True)
+        for f in ('patch.diff', 'equiv.py', 'notes.md'):
+            if os.path.exists(os.path.join(d, f)):
+                shutil.copy(os.path.join(d, f), os.path.join(o, f))
+        notes = open(os.path.join(d, 'notes.md')).read() if os.path.exists(os.path.join(d, 'notes.md')) else ''
+        meta = {
+            'property': r['property'], 'kind': 'neutral',
+            'change': notes.split('\n')[0].lstrip('# ').strip(),
+            'origin': 'behaviour-preserving rewrite written by a fresh sub-agent given only the property text and its own scratch worktree',
+            'what_was_run': ['git apply patch.diff on a scratch copy of /repo (never committed)', 'the pinned test suite: ' + r.get('tests', ''),
+                             'equiv.py digest with the change: %s; without: %s' % (r.get('equiv_with_change'), r.get('equiv_clean')),
+                             'harness/check.py %s --tier quick with VERIF_REPO pointing at the changed copy: exit %s in %ss' % (r['property'], r.get('check_rc'), r.get('check_s'))],
+            'check_silent': bool(r.get('silent')),
+            'first_lines_of_check': r.get('check_lines', [])[:4],
+        }
+        json.dump(meta, open(os.path.join(o, 'meta.json'), 'w'), indent=1)
+        print('seeded neutral', name, 'silent', meta['check_silent'])
+        continue
     if not r or not (r.get('applies') and r.get('demo_with_mutant_rc') == 1 and r.get('demo_clean_rc') == 0 and 'passed' in r.get('tests', '')
                      and not re.search(r'\b\d+ (failed|error)', r.get('tests', ''))):
         print('skip (not confirmed):', name)
